@@ -100,6 +100,8 @@ func StartBinary(bin string, o BinOpts) (*Instance, error) {
 	if err := cmd.Start(); err != nil {
 		return nil, err
 	}
+	RegisterString(audience)
+	RegisterString(url)
 	in := &Instance{Opts: o, Bin: bin, cmd: cmd, Out: outFile, Vars: vars}
 	in.Env = &Env{Mode: "real", Secret: secret, Addr: "127.0.0.1:" + strconv.Itoa(ps[0]), RelayWs: url,
 		Cfg: Config{AE: o.AllowNoBid == "true", Host: audience, Target: url, Audience: url, TTL: 30}}
